@@ -55,6 +55,13 @@ func stringSliceGlobal(p *Prog, pkg, name string) ([]string, token.Pos, bool) {
 					}
 					var out []string
 					for _, e := range cl.Elts {
+						if kv, isKV := e.(*ast.KeyValueExpr); isKV {
+							// a set written as map[string]struct{}{...} / map[string]bool{...: true}
+							if tv, ok := pk.TypesInfo.Types[kv.Value]; ok && tv.Value != nil && tv.Value.Kind() == constant.Bool && !constant.BoolVal(tv.Value) {
+								continue // an entry mapped to false is not a member
+							}
+							e = kv.Key
+						}
 						tv, ok := pk.TypesInfo.Types[e]
 						if !ok || tv.Value == nil || tv.Value.Kind() != constant.String {
 							return nil, n.Pos(), false
@@ -229,7 +236,7 @@ func lastPartCompare(p *Prog, fn *ssa.Function, cond ssa.Value, at *ssa.BasicBlo
 			}
 			return false, false
 		})
-		if len(pass) > 0 {
+		if nonVacuous(pass) {
 			if g, _ := Guarded(fn.Blocks[0], lastInstr(at), pass, nil); g {
 				isLast = true
 			}
@@ -288,46 +295,43 @@ func c11Stores(c *Ctx, rg *ssa.Function) map[string]string {
 			if !ok {
 				continue
 			}
-			cond, flip := stripNot(ifi.Cond)
-			// (a) allow-list membership of this line's key
-			if call, ok := cond.(*ssa.Call); ok && CalleeName(&call.Call) == "config.keyIsUnsafe" {
-				if SameValue(call.Call.Args[0], key) {
-					e := Edge{b, 1}
-					if flip {
-						e = Edge{b, 0}
+			for oi, outcome := range []bool{true, false} {
+				for _, ic := range ImpliedConds(ifi.Cond, outcome) {
+					cond := ic.Cond
+					// (a) allow-list membership of this line's key: keyIsUnsafe(key) is false
+					if call, ok := cond.(*ssa.Call); ok && CalleeName(&call.Call) == "config.keyIsUnsafe" {
+						if SameValue(call.Call.Args[0], key) {
+							if !ic.Val {
+								just[Edge{b, oi}] = true
+								justDesc = append(justDesc, "allow-list membership")
+							}
+						} else if oi == 0 {
+							c.Bad("R2", "allow-list-tests-other-key", p.InstrPos(ifi), "the allow-list is consulted for a different value than the key being stored")
+						}
+						continue
 					}
-					just[e] = true
-					justDesc = append(justDesc, "allow-list membership")
-				} else {
-					c.Bad("R2", "allow-list-tests-other-key", p.InstrPos(ifi), "the allow-list is consulted for a different value than the key being stored")
+					// (b..d) last component equals an allowed suffix
+					if s, eqWhen, ok := lastPartCompare(p, rg, cond, b); ok {
+						// the split must be of this line's key
+						u := cond.(*ssa.BinOp)
+						var el ssa.Value = u.X
+						if _, isC := ConstString(u.X); isC {
+							el = u.Y
+						}
+						ia := el.(*ssa.UnOp).X.(*ssa.IndexAddr)
+						call, _, _ := CallResult(ia.X)
+						if !SameValue(call.Call.Args[0], key) {
+							continue
+						}
+						if eqWhen == ic.Val {
+							just[Edge{b, oi}] = true
+							if _, seen := suffixes[s]; !seen {
+								suffixes[s] = p.InstrPos(ifi)
+							}
+							justDesc = append(justDesc, "last component == "+s)
+						}
+					}
 				}
-				continue
-			}
-			// (b..d) last component equals an allowed suffix
-			if s, eqWhen, ok := lastPartCompare(p, rg, cond, b); ok {
-				// the split must be of this line's key
-				u := cond.(*ssa.BinOp)
-				var el ssa.Value = u.X
-				if _, isC := ConstString(u.X); isC {
-					el = u.Y
-				}
-				ia := el.(*ssa.UnOp).X.(*ssa.IndexAddr)
-				call, _, _ := CallResult(ia.X)
-				if !SameValue(call.Call.Args[0], key) {
-					continue
-				}
-				if flip {
-					eqWhen = !eqWhen
-				}
-				e := Edge{b, 1}
-				if eqWhen {
-					e = Edge{b, 0}
-				}
-				just[e] = true
-				if _, seen := suffixes[s]; !seen {
-					suffixes[s] = p.InstrPos(ifi)
-				}
-				justDesc = append(justDesc, "last component == "+s)
 			}
 		}
 		// only those suffix tests that matter are kept: a suffix test is an allow site when cutting it alone
@@ -353,7 +357,7 @@ func c11Stores(c *Ctx, rg *ssa.Function) map[string]string {
 		sort.Strings(justDesc)
 		c.Check(!reached, "R2", "restricted-line-store", p.InstrPos(sink),
 			"with a restricted source a line is stored only through: "+strings.Join(justDesc, "; "),
-			"with a restricted (.lfsconfig) source a line can be stored without its key having passed the allow-list or an allowed-suffix test on the same key (e.g. a flag set by an earlier line, or a branch that skips the suffix test): an undocumented key takes effect")
+			"with a restricted (.lfsconfig) source a line can be stored without its key having passed the allow-list or an allowed-suffix test on the same key (e.g. a flag set by an earlier line, or a branch that skips the suffix test): an undocumented key takes effect; recognised tests: "+strings.Join(justDesc, "; "))
 		// which suffix tests are genuine allow sites: re-open one at a time
 		for s := range suffixes {
 			open := map[Edge]bool{}
@@ -366,10 +370,13 @@ func c11Stores(c *Ctx, rg *ssa.Function) map[string]string {
 				if !ok {
 					continue
 				}
-				cond, _ := stripNot(ifi.Cond)
-				if s2, _, ok := lastPartCompare(p, rg, cond, b); ok && s2 == s {
-					delete(open, Edge{b, 0})
-					delete(open, Edge{b, 1})
+				for _, outcome := range []bool{true, false} {
+					for _, ic := range ImpliedConds(ifi.Cond, outcome) {
+						if s2, _, ok := lastPartCompare(p, rg, ic.Cond, b); ok && s2 == s {
+							delete(open, Edge{b, 0})
+							delete(open, Edge{b, 1})
+						}
+					}
 				}
 			}
 			r2 := false
@@ -576,6 +583,22 @@ func c11KeyIsUnsafe(c *Ctx) {
 	for _, r := range ReturnsOf(fn) {
 		bv, ok := ConstBool(r.Results[0])
 		if !ok {
+			// set form: `_, safe := safeKeys[key]; return !safe` — an exact lookup of the parameter in the table
+			if un, isNot := r.Results[0].(*ssa.UnOp); isNot && un.Op == token.NOT {
+				if ex, isEx := un.X.(*ssa.Extract); isEx && ex.Index == 1 {
+					if lk, isLk := ex.Tuple.(*ssa.Lookup); isLk && lk.CommaOk {
+						_, isPrm := Unwrap(lk.Index).(*ssa.Parameter)
+						isTab := false
+						if ld, isLd := lk.X.(*ssa.UnOp); isLd {
+							if g, isG := ld.X.(*ssa.Global); isG && g.Name() == "safeKeys" {
+								isTab = true
+							}
+						}
+						c.Check(isPrm && isTab, "R6", "keyIsUnsafe:safe-only-by-exact-match", p.InstrPos(r), "a key is safe only when it is a member of the allow-list set", "keyIsUnsafe looks up something other than the key in something other than safeKeys")
+						continue
+					}
+				}
+			}
 			c.Undecided("R6", "keyIsUnsafe:return", p.InstrPos(r), "non-constant result")
 			continue
 		}
@@ -602,7 +625,7 @@ func c11KeyIsUnsafe(c *Ctx) {
 			return false, false
 		})
 		ok2, path := Guarded(fn.Blocks[0], r, pass, nil)
-		c.Check(ok2 && len(pass) > 0, "R6", "keyIsUnsafe:safe-only-by-exact-match", p.InstrPos(r), "a key is safe only when it equals an allow-list entry exactly", "keyIsUnsafe can report a key as safe without an exact match against safeKeys: "+path)
+		c.Check(ok2 && nonVacuous(pass), "R6", "keyIsUnsafe:safe-only-by-exact-match", p.InstrPos(r), "a key is safe only when it equals an allow-list entry exactly", "keyIsUnsafe can report a key as safe without an exact match against safeKeys: "+path)
 	}
 	for _, ci := range CallsIn(fn, "strings.ToLower", "strings.EqualFold", "strings.HasPrefix", "strings.Contains", "strings.HasSuffix") {
 		c.Bad("R6", "keyIsUnsafe:inexact-compare", p.InstrPos(ci), "the allow-list comparison uses "+CalleeName(ci.Common())+" instead of exact equality")
